@@ -54,4 +54,11 @@ func fixed(c *hlib.Ctx) {
 	emitDiag(band(5, false))
 	emitDiag(gridSurface(4, 4, true))
 	emitDiag(gridSurface(4, 4, false))
+	// nests of non-convex components: box > thick U/C > thin U/C in its material > small shapes in
+	// the arms (the bounding-box centre of the thin one lies in the notch), 2-D and 3-D
+	for v := 0; v < 12; v++ {
+		roots := demoNest(v)
+		hier2Case(c, soupOfSegs(c, polySegs2(c, roots)), "demo-nest", roots)
+		hier3Case(c, polyMesh3(c, roots, v%3), "demo-nest", roots)
+	}
 }
